@@ -35,7 +35,8 @@ side = st.sampled_from([0.0, 0.0, 1e-12, 0.1, 0.5, 1.0, 10.0, 1e20, 1e20])
 @st.composite
 def cases(draw):
     n = draw(st.integers(1, 8))
-    eg = draw(st.integers(-3, 3))
+    # gradient magnitudes from 1e-14 (next to a zero-residual solution: the routine's absolute thresholds bite) to 1e6
+    eg = draw(st.sampled_from([-3, -2, -1, 0, 1, 2, 3, -3, -2, -1, 0, 1, 2, 3, -14, -12, -10, -8, -6, 6]))
     g = []
     for _ in range(n):
         v = draw(val)
